@@ -14,6 +14,8 @@ CONSTANTS
   CompileMode = "stated"
   Inners <- InnersNone
   ScopeMode = "stated"
+  Doors <- DoorsApi
+  HookMode = "stated"
 INIT InitCover
 NEXT Next
 INVARIANTS KeepInv BalanceSheetInv IncomeInv EquityInv TxBalanceInv FilterInv CompileInv SortedInv ExpectInv LayoutInv
